@@ -17,6 +17,7 @@ import SharkVerif.Model.Contrib3D
 import SharkVerif.Lemmas.DCFront
 import SharkVerif.Lemmas.RatLift
 import SharkVerif.Lemmas.Subset2D
+import SharkVerif.Lemmas.Contrib3DE
 namespace SharkVerif.C13
 open SharkVerif.Pareto SharkVerif.HV SharkVerif.DC
 
@@ -519,5 +520,42 @@ theorem ssp_old_comparator_not_irreflexive :
   ⟨⟨-1, -2, 0⟩, by decide⟩
 
 example : SharkVerif.SSP.IsFront [⟨-5, -1, 0⟩, ⟨-3, -2, 1⟩, ⟨-1, -4, 2⟩] := ⟨by decide, by decide⟩
+
+/-! ## HypervolumeContribution3D (sweep with the x-y front and the box deques)
+
+Model: `Model/Contrib3D.lean`.  Proved (`Lemmas/Contrib3D.lean` … `Contrib3DE.lean`): the index bookkeeping, the
+treatment of points on the boundary of the reference box (/repo 778c5b2c), the reduction of the operator to the sweep
+on shifted, sorted, strictly-inside points, the slicing of a contribution by height, conservation of
+"contribution + volume of the open boxes" by both cuts, the geometry of the boxes created for a new point
+(`newBoxes_mem`), the chain invariant of a box list under both cuts.  Open: the assembly of these into the loop
+invariant of `step3c` (`SweepCorrect`). -/
+
+/-- every point gets exactly one `(contribution, index)` pair (unconditional) -/
+theorem contribution3d_indices (S : List Pt) (r : Pt) :
+    ((contribs3d S r).map (·.2)).Perm (List.range S.length) :=
+  contribs3d_map_snd_perm S r
+
+/-- **C13 (HypervolumeContribution3D)** — `_partial`: the operator-level statement (mutually non-dominated 3-D sets,
+duplicates and boundary points allowed: one pair per point whose key is the hypervolume lost by removing the point)
+is proved **from** the correctness of the inner sweep on sorted, strictly negative, mutually non-dominated fronts
+(`SweepCorrect`, a statement about `sweepContrib` = `allContributions(front)` only); that loop invariant is not proved
+yet.  On every run the sweep is compared with `contribSpec` by the correspondence and the oracle, also on all
+prefixes of the input in sweep order. -/
+theorem contribution3d_eq_spec_partial (hsw : SweepCorrect) (S : List Pt) (r : Pt) (hS : ∀ p ∈ S, p.length = 3)
+    (hr : r.length = 3) (hle : ∀ p ∈ S, leAll p r = true) (hnd : ∀ p ∈ S, ∀ q ∈ S, dominates p q = false) :
+    ((contribs3d S r).map (·.2)).Perm (List.range S.length) ∧ ∀ c ∈ contribs3d S r, c.1 = contribSpec S r c.2 :=
+  contribs3d_eq_spec_of_sweep hsw hS hr hle hnd
+
+/-- a point with a coordinate equal to the reference point has contribution 0 (what /repo 778c5b2c relies on) -/
+theorem contribution_of_boundary_point_is_zero {S : List Pt} {r : Pt} (hS : ∀ p ∈ S, p.length = 3) (hr : r.length = 3)
+    (hle : ∀ p ∈ S, leAll p r = true) {i : Nat} (hi : i < S.length) (hout : inside3 r S[i] = false) :
+    contribSpec S r i = 0 :=
+  contribSpec_boundary hS hr hle hi hout
+
+/-- the precondition "mutually non-dominated" is needed by the 3-D sweep as well -/
+theorem contribution3d_needs_nondominated :
+    ∃ (S : List Pt) (r : Pt), (∀ p ∈ S, p.length = 3) ∧ r.length = 3 ∧ (∀ p ∈ S, leAll p r = true) ∧
+      ¬ ∀ c ∈ contribs3d S r, c.1 = contribSpec S r c.2 :=
+  contribs3d_needs_nondominated
 
 end SharkVerif.C13
